@@ -94,7 +94,7 @@ def check(ctx: Ctx) -> None:
     ctx.sample({"derive_condition_node_type": {k: v[0] for k, v in table.items() if k in ("0", "1", "499", "500", "900", "901", "999", "1000", "2000", "2499", "2500", "1P")}})
     # ---- routing, sanitising, union
     exprs = ["[2] U [1] U ([2] O [10])", "[501] U [3][901] O [100][902] U [3]", "[2400] U [20] X [5]", "[7P] U [1] O [UB1] U [3P] U [7P]",
-             "[950][499] U [500] O [900][901]", "[12] U [9] U [111] U [9]", "[UB3] U [UB1] O [1P0..1]"]
+             "[950][499] U [500] O [900][901]", "[12] U [9] U [111] U [9]", "[UB3] U [UB1] O [1P0..1]", "[UB1] U ([2] O [UB1]) U [UB2][UB1]", "[501] U [501] O [7P] U [7P1..2]"]
     for text in exprs:
         e = refsem.parse_condition(text)
         for sanitize in (True, False):
